@@ -13,7 +13,8 @@ RULE = ('integer sequences: quick = every byte string of length 0..2 over 0..255
 
 BOUNDARY = [0, 1, 0x7f, 0x80, 0x8f, 0x90, 0xbf, 0xc0, 0xdf, 0xe0, 0xef, 0xf0, 0xf1, 0xf2, 0xf3, 0xf4, 0xf5,
             0xf6, 0xf7, 0xf8, 0xf9, 0xfa, 0xfb, 0xfc, 0xfd, 0xfe, 0xff]
-BAD_ITEMS = [-1, 256, 2 ** 70, True, 1.5, 144.0, 247.0, 248.0, 1.0, 'a', None, [1]]
+BAD_ITEMS = [-1, 256, 2 ** 70, True, 1.5, 144.0, 247.0, 248.0, 1.0, 'a', None, [1], 'clock', 'note_on', 'sysex', 'reset', 'song_select',
+             b'\x90', (0x90,), 'F8', '0x90']
 
 
 class MyInt(int):
@@ -38,6 +39,22 @@ def tok(x):
 
 
 def impl_decode(seq):
+    out, fail = _impl_decode(seq)
+    if fail is None and isinstance(seq, list) and len(seq) <= 64:
+        # the same items in the other sequence types a caller may hold them in: the outcome (message or exception class) is that
+        # of the list
+        import mido
+        alts = [('tuple', tuple(seq))]
+        if all(isinstance(x, int) and not isinstance(x, bool) and 0 <= x <= 255 for x in seq):
+            alts += [('bytes', bytes(seq)), ('bytearray', bytearray(seq))]
+        for how, alt in alts:
+            o2 = _outcome(mido, alt)
+            if o2 != out:
+                return out, f'from_bytes of the items {seq!r} as a {how} gives {o2!r}, as a list {out!r}'
+    return out, fail
+
+
+def _impl_decode(seq):
     """Outcome of Message.from_bytes in protocol form + oracle verdict."""
     import mido
     try:
@@ -57,7 +74,11 @@ def impl_decode(seq):
         else:
             fail = f'from_bytes({seq!r}) raised {type(e).__name__}: {e}'
         return out, fail
-    out = 'ok ' + msgs.canon_msg(m)
+    try:
+        out = 'ok ' + msgs.canon_msg(m)
+    except Exception as e:      # noqa: BLE001 - a message object without the attributes of its type
+        return 'ok <incomplete>', (f'from_bytes({seq!r}) returned an object that is not a complete message of its type '
+                                   f'({type(e).__name__}: {e}; attributes {sorted(vars(m))})')
     fail = None
     try:
         same = list(m.bytes()) == list(seq)
@@ -82,9 +103,13 @@ def impl_decode(seq):
 
 def _outcome(mido, seq):
     try:
-        return 'ok ' + msgs.canon_msg(mido.Message.from_bytes(seq))
+        m = mido.Message.from_bytes(seq)
     except Exception as e:      # noqa: BLE001
         return 'err ' + exc_name(e)
+    try:
+        return 'ok ' + msgs.canon_msg(m)
+    except Exception:      # noqa: BLE001
+        return 'ok <incomplete>'
 
 
 def container_cases():
